@@ -161,7 +161,7 @@ def _all_consts(body):
     for blk in body.blocks:
         for st in blk['stmts']:
             rv = st['rv']
-            for o in ([rv.get('op')] if rv.get('op') and isinstance(rv.get('op'), dict) else []) + list(rv.get('ops') or []):
+            for o in ([rv.get('op')] if rv.get('op') and isinstance(rv.get('op'), dict) else []) + list(rv.get('ops') or []) + [rv.get(k_) for k_ in ('a', 'b') if isinstance(rv.get(k_), dict)]:
                 v = const_val(o) if isinstance(o, dict) else None
                 if v:
                     out.append(v)
@@ -429,24 +429,29 @@ def r17(ctx):
 
 def r17b(ctx):
     """... and where the pattern does not START with a literal directory (`*/private/**`, `phot?s/..`, `{photos,pictures}/..`, -i) there is nothing to
-    resolve in the pattern: the selector has to know the other name of the files - the input path as given - and match that as well."""
+    resolve in the pattern: the selector has to know the other name of the files - the input path as given - and match that as well.  The place that
+    knows both forms of EVERY input path (arguments, --stdin lines, --base-dir) is the walk: Walk::run has the path as given and Walk::absolute(path)."""
     rule = 'C09.R17'
     lib = ctx.lib
-    ps = None
-    for p_, b in sorted(lib.bodies.items()):
-        if re.search(r'^config::GroupConfig::path_selector$', p_):
-            ps = b
-    if ps is None:
-        ctx.missing(rule, 'config::GroupConfig::path_selector')
+    run = ctx.need_body(rule, W + 'run')
+    if run is None:
         return
-    # (1) the selector is told the input paths
-    told = [c for c in ps.calls(r'^selector::PathSelector::\w+$') if any('paths' in backslice(ps, [a]).field_names() for a in c.args)]
-    setter = lib.body(told[0].path) if told else None
-    # (the setter, or a helper of the selector it calls, resolves the paths)
-    sb = [setter] + [lib.body(cp) for cp in lib.closures_of(setter.path)] if setter is not None else []
-    sb += [hb for x in list(sb) for k in x.calls(r'^selector::PathSelector::\w+$') for hb in [lib.body(k.path)] if hb is not None]
-    resolves = bool([c for x in sb for c in x.calls(r'path::Path::canonicalize$|^std::fs::canonicalize$|dunce::canonicalize$|config::canonical_root$')])
-    # (2) what it has learnt is used by the three predicates of the walk: a field written by the setter is read on their side
+    bodies = [run] + [lib.body(cp) for cp in lib.closures_of(run.path)]
+    # (1) the selector is told every input path in both forms: a call of a PathSelector method one of whose arguments is the result of Walk::absolute
+    told = []
+    for x in bodies:
+        for c in x.calls(r'^selector::PathSelector::\w+$'):
+            if any(backslice(x, [a]).has_call(r"Walk::<'a>::absolute$") for a in c.args[1:]):
+                told.append((x, c))
+    setter = lib.body(told[0][1].path) if told else None
+    # (2) before the first file is matched: the registration is not in the loop that spawns the visits (a later input path could give a second name to
+    # files that an earlier one has matched already - the result would depend on timing)
+    spawns = [(x, c) for x in bodies for c in x.calls(r'Scope::<.*>::spawn$|Scope<.*>::spawn$|::spawn$')]
+    early = bool(told) and all(not (x is sx and c.bb in x.reachable(sc.bb)) for x, c in told for sx, sc in spawns) and \
+        all(x is not sx or sc.bb in x.reachable(c.bb) or x.path != run.path for x, c in told for sx, sc in spawns)
+    # the registration sits in a closure (map over the roots) that is consumed (collect) before the spawning loop: the closure itself spawns nothing
+    early = early and all(not x.calls(r'::spawn$') for x, c in told if x.path != run.path)
+    # (3) what it has learnt is used by the three predicates of the walk: a field touched by the setter is read on their side
     def fields_of(x):
         out = set()
         for y in [x] + [lib.body(cp) for cp in lib.closures_of(x.path)]:
@@ -474,12 +479,17 @@ def r17b(ctx):
                     if hb is not None:
                         todo.append(hb)
         users[fn] = bool(got & learnt)
-    ok = bool(told) and resolves and bool(learnt) and bool(users) and all(users.values())
-    ctx.check(ok, rule, ps.path + '|input-path-aliases', (told[0].where() if told else ps.where()),
-              'the selector is told the input paths (%s), resolves them, and %s match the path below the input path as given as well' % (told[0].path.rsplit('::', 1)[-1] if told else '-', ', '.join(sorted(users))),
+    ok = bool(told) and bool(learnt) and bool(users) and all(users.values())
+    ctx.check(ok, rule, run.path + '|input-path-aliases', (told[0][1].where() if told else run.where()),
+              'the walk tells the selector every input path as given and as resolved (%s), and %s match the path below the input path as given as well' % (told[0][1].path.rsplit('::', 1)[-1] if told else '-', ', '.join(sorted(users))),
               'only a pattern that STARTS with a literal, exactly-cased directory is brought into the resolved form of the scanned paths: with `photos -> ../disk`, `group photos --exclude "*/private/**"`, '
               '`"phot?s/private/**"`, `"{photos,pictures}/private/**"` and `-i --exclude "photos/PRIVATE/**"` exclude nothing and `--path "*/private/*"` selects nothing, because the files are matched as '
-              '<T>/disk/private/.. only; the selector does not know that they are also <cwd>/photos/private/..')
+              '<T>/disk/private/.. only; the selector does not know that they are also <cwd>/photos/private/.. - or it knows it only for the input paths that are ARGUMENTS relative to the working '
+              'directory (GroupConfig.paths), not for --stdin lines and not under --base-dir, and takes a symbolic link to a FILE for an alias of its target')
+    if told:
+        ctx.check(early, rule, run.path + '|aliases-known-before-the-first-match', told[0][1].where(), 'all input paths are registered before the first visit is spawned',
+                  'an input path is registered in the same loop that spawns the visits: the files of an earlier input path may be matched before a later one (a link to the same directory) gives them '
+                  'their second name - whether `--exclude "photos/private/**"` applies to the files found through `disk` depends on the timing')
 
 
 def r12c(ctx):
@@ -612,7 +622,19 @@ def r11b(ctx):
             ctx.check({'Dir', 'SymLink'} <= revisit, rule, mk.path + '|links-revisit-too', mk.where(), 'directories and symbolic links are visited again at a smaller level (%s)' % sorted(revisit),
                       'only %s are visited again when reached at a smaller level: a link to a directory has a subtree as well (its target is visited at the level of the link), so when the deeper route reaches '
                       'the link first, what the shallower route could read within --depth is lost - and which route is first depends on the order of the input paths and on --threads' % sorted(revisit))
-        ctx.check(not reads_depth, rule, mk.path + '|smaller-level-revisits', mk.where(), 'an entry reached at a smaller level than before is visited again, whatever the depth limit',
+        # the depth may be consulted for one thing only: "is there a limit at all" (a comparison with usize::MAX). Without a limit the first visit has
+        # covered the whole subtree (what differs between routes - ignore rules, root device, hidden / ignored roots - is in the key or tested before
+        # the mark), and re-visiting at every smaller level costs a factor N on N mutually linked directories
+        only_unlimited_test = False
+        if reads_depth:
+            vals = [str(v) for x in bodies for v in _all_consts(x)]
+            cmps_ = [c for x in bodies for c in comparisons(x) if 'depth' in (backslice(x, [c.a]).field_names() | backslice(x, [c.b]).field_names())]
+            only_unlimited_test = bool(cmps_) and all(c.op in ('==', '!=') for c in cmps_) and any(re.search(r'usize>?::MAX|18446744073709551615', v) for v in vals)
+        ctx.check(reads_depth and only_unlimited_test, rule, mk.path + '|revisits-need-a-depth-limit', mk.where(), 'without a depth limit nothing is visited twice for its level',
+                  'every directory or link reached again at a smaller nesting level is walked again with its whole subtree, also when no --depth limit is set and the level cannot matter: the walk is depth '
+                  'first, so a node is first reached at the end of a long chain of links and then again and again one level closer - with the visits recorded per (path, ignore stack) the number of '
+                  'visits of N mutually linked directories with ignore files grows like N^5: 32 directories with 32 files do not finish in 15 minutes with -t 1 (3.4 s with the test of the limit)')
+        ctx.check((not reads_depth) or only_unlimited_test, rule, mk.path + '|smaller-level-revisits', mk.where(), 'an entry reached at a smaller level than before is visited again%s' % (' when a depth limit is set' if reads_depth else ', whatever the depth limit'),
                   'a re-visit at a smaller level is allowed only when --depth is given: otherwise an input path (level 0) that another input path reached first is not walked with its own ignore rules and root device '
                   '- `group S/sub S -L` loses the files of S/sub that S/.gitignore ignores, `group S S/sub -L` does not')
 
